@@ -27,12 +27,38 @@ CHECKS.update({
              note="K=3000 repetitions per state, tolerance 6*sqrt(1/4K); trusts numpy partial trace and hooks.",
              ref="DESIGN.md §4 C04"),
 })
+CHECKS.update({
+ "C07": dict(technique="property-based differential testing: Hypothesis-generated well-typed programs vs an independent reference interpreter written from the documentation",
+             text="A typed-by-construction generator covers every operator, promotion, cast, array and control-flow form of the documented classical core; echo output (numeric tokens compared numerically) or the runtime error kind must equal the reference interpreter's. Results the docs do not fix are discarded and counted, never asserted.",
+             note="Trusts pbt/ref_classic.py as a faithful reading of docs/language/*.md and docs/casting.md; programs are run through the real CLI entry point of an ASan/UBSan build.",
+             ref="DESIGN.md §4 C07"),
+ "C10": dict(technique="metamorphic property-based testing: permutations of top-level declarations of generated programs must not change acceptance, diagnostic category, exit status or stdout",
+             text="All permutations (<=4 declarations) or sampled ones incl. the reverse order; the generator produces calls with arguments to functions that the permutation moves after their caller. No reference model is needed: the program is its own oracle.",
+             note="Classic (functions) profile; the classes profile joins when pbt/genclass.py is present.",
+             ref="DESIGN.md §4 C10"),
+ "C13": dict(technique="coverage-guided fuzzing (libFuzzer, oracle inside the target, ASan+UBSan) + systematic token-level mutation enumeration and Hypothesis mutants with a validity-predicate oracle",
+             text="Every single-token deletion/truncation and class-directed replacement of 269 seed programs, random multi-edit mutants, multi-file trees with a mutated member and a libFuzzer campaign are pushed through both the direct and the loader front-end paths; each must terminate with acceptance or exactly one Lexical/Parse/Semantic diagnostic, no raw exception, no sanitizer report, and leave the analyser reusable.",
+             note="Inputs bounded to 4 KiB and nesting 64; libFuzzer runs are only approximately reproducible, artifacts are re-checked by the deterministic oracle.",
+             ref="DESIGN.md §4 C13", engine="libFuzzer+hypothesis+verifdrv"),
+ "C14": dict(technique="property-based round-trip testing: generated syntax trees rendered with minimal/redundant parentheses and parsed back, compared as S-expressions",
+             text="Trees over every documented expression, statement, function and class-member form are rendered from the documented precedence table and must parse to the same tree; one inherently ambiguous token shape is excluded and counted.",
+             note="Trusts the renderer's reading of docs/grammar.md and the driver's AST dumper (public node structs, parentheses transparent).",
+             ref="DESIGN.md §4 C14"),
+ "C19": dict(technique="property-based testing against a reference model: generated directory trees / search paths / working directories vs a reference import resolver; validity predicate on the merged order",
+             text="Marker classes make the set of loaded files observable; success must load exactly the predicted files once each with dependencies first, failure must be a Semantic diagnostic. Generator builds diamonds, cycles, shadowed paths, wildcard directories, bloch.* preference and aliased search paths on purpose.",
+             note="Reference resolver written from language-guide.md/semantics.md; bloch/lang/Object.bloch is never generated.",
+             ref="DESIGN.md §4 C19"),
+ "C20": dict(technique="property-based testing of the updater's pure helpers (compiled into a harness TU): reference semver parser, order laws, exact-name checksum lookup, model-based 72 h throttle sequences",
+             text="Version strings from a grammar (huge numbers, leading zeros, suffixes, garbage) in triples check parse agreement, antisymmetry/transitivity and the notice/install gates; checksums.txt files with decoy assets check exact matching; invocation sequences over virtual time and over a real cache file check the throttle and the environment switches.",
+             note="The network leg (download, extract, replace) cannot run offline and is not exercised; the install gate is observed as !hasLatest(current, latest).",
+             ref="DESIGN.md §4 C20", engine="hypothesis+verifupd"),
+})
 REASONS = {}
 def main():
     hooks = subprocess.run(["git","-C","/repo","log","--format=%h %s","--grep=^verif hooks"],capture_output=True,text=True).stdout.strip().splitlines()
     m = {
      "version": 1,
-     "setup_cmd": "python3-vt -m pbt.build asan",
+     "setup_cmd": "python3-vt -m pbt.build asan upd fuzz",
      "hooks": {"guard": "BLOCH_VERIF",
                "enable": "pbt/build.py compiles /repo/src/**/*.cpp directly with clang++ -std=gnu++20 -DBLOCH_VERIF plus sanitizers into /verif/.build/<flavour>-<sha256 of tree>/; recomputed at the start of every check",
                "baseline_off_cmd": "/verif/harness/baseline_off.sh /repo",
